@@ -611,6 +611,12 @@ impl<P: FpConfig<N>, const N: usize> CanonicalDeserializeWithFlags for Fp<P, N> 
         masked_bytes.read_exact_up_to(reader, output_byte_size)?;
         let flags = F::from_u8_remove_flags(&mut masked_bytes[output_byte_size - 1])
             .ok_or(SerializationError::UnexpectedFlags)?;
+        // When the flags spill into an extra byte beyond the `N` limbs, that byte holds
+        // nothing but flag bits: any other bit makes the encoding non-canonical
+        // (`to_bigint` below only looks at the limbs).
+        if output_byte_size == 8 * N + 1 && masked_bytes[8 * N] != 0 {
+            return Err(SerializationError::InvalidData);
+        }
 
         let self_integer = masked_bytes.to_bigint();
         Self::from_bigint(self_integer)
